@@ -54,6 +54,15 @@ type Frame struct {
 	oldNow  string
 	deferred []Deferred
 	awaiting bool
+	loopSnap map[int]*HeapSnap
+}
+
+// HeapSnap is the heap view at a loop head (after the havoc), for step assertions.
+type HeapSnap struct {
+	heaps  map[string]string
+	epoch  int
+	now    string
+	locals map[string]Val
 }
 
 type Deferred struct {
@@ -179,6 +188,12 @@ func (st *State) clone() *State {
 			nf.vals[k] = v
 		}
 		nf.deferred = append([]Deferred(nil), f.deferred...)
+		if f.loopSnap != nil {
+			nf.loopSnap = make(map[int]*HeapSnap, len(f.loopSnap))
+			for k, v := range f.loopSnap {
+				nf.loopSnap[k] = v
+			}
+		}
 		nf.locals = make(map[string]Val, len(f.locals))
 		for k, v := range f.locals {
 			nf.locals[k] = v
@@ -819,6 +834,16 @@ func (x *Exec) enterBlock(st *State, b, pred *ssa.BasicBlock) bool {
 		}
 	}
 	if back {
+		if spec != nil {
+			for _, stp := range spec.Steps {
+				env := x.specEnv(st, fr, nil)
+				if snap := fr.loopSnap[ord]; snap != nil {
+					env.lheaps, env.lepoch, env.lnow, env.llocals = snap.heaps, snap.epoch, snap.now, snap.locals
+				}
+				t := x.evalBool(st, stp.SX, env)
+				x.emit(st, "loop-step", fmt.Sprintf("%s/loop%d:step:%s", fname, ord, stp.Name), stp, t)
+			}
+		}
 		return false
 	}
 	// havoc
@@ -849,6 +874,18 @@ func (x *Exec) enterBlock(st *State, b, pred *ssa.BasicBlock) bool {
 			x.assume(st, t)
 		}
 	}
+	if fr.loopSnap == nil {
+		fr.loopSnap = map[int]*HeapSnap{}
+	}
+	hs := make(map[string]string, len(st.heaps))
+	for k, v := range st.heaps {
+		hs[k] = v
+	}
+	ls := make(map[string]Val, len(fr.locals))
+	for k, v := range fr.locals {
+		ls[k] = v
+	}
+	fr.loopSnap[ord] = &HeapSnap{heaps: hs, epoch: st.epoch, now: st.now, locals: ls}
 	fr.block, fr.pred, fr.pc = b, pred, len(phis)
 	return true
 }
@@ -884,6 +921,29 @@ func (x *Exec) emit(st *State, kind, name string, c Clause, goal string) {
 				x.emit(st, kind, fmt.Sprintf("%s#%d", name, i+1), c, part.String())
 			}
 			return
+		}
+	}
+	if strings.HasPrefix(goal, "(let ") {
+		// (let (binds) (and a b)) -> (let (binds) a), (let (binds) b)
+		if sx, err := parseSX(goal); err == nil && len(sx.List) == 3 {
+			body := sx.List[2]
+			if (body.Head() == "and" && len(body.List) > 2) || (body.Head() == "=>" && len(body.List) == 3 && body.List[2].Head() == "and") {
+				var parts []*SX
+				if body.Head() == "and" {
+					parts = body.List[1:]
+				} else {
+					for _, p := range body.List[2].List[1:] {
+						parts = append(parts, list(atom("=>"), body.List[1], p))
+					}
+				}
+				for i, part := range parts {
+					if part.String() == "true" {
+						continue
+					}
+					x.emit(st, kind, fmt.Sprintf("%s#%d", name, i+1), c, "(let "+sx.List[1].String()+" "+part.String()+")")
+				}
+				return
+			}
 		}
 	}
 	if strings.HasPrefix(goal, "(=> ") {
